@@ -160,7 +160,10 @@ Proof.
   pose proof (live_tx_da _ _ _ Hl) as Hda.
   apply live_tx_spec in Hl. destruct Hl as [Hx Hlive].
   destruct (pair_tx _ _ _ _ _ I Hx) as [y [Hy [_ [Hiny HR]]]].
-  injection Hs as <- <- <-. rewrite Hy in Hsp. injection Hsp as <- <-. split; [|apply vs_ok_nil].
+  assert (Hnone : find_stx h' (sp_tx sp) = None).
+  { pose proof (find_pair_tx _ _ _ h' (i_tx _ _ _ I) (rel_tx_id c)) as P. rewrite Hf' in P.
+    destruct (find_stx h' (sp_tx sp)); [contradiction | reflexivity]. }
+  injection Hs as <- <- <-. rewrite Hy, Hnone in Hsp. injection Hsp as <- <-. split; [|apply vs_ok_nil].
   set (cl := fix04 c && t_closed x).
   set (xn := {| t_id := h'; t_live := true; t_async := false; t_closed := cl |}).
   set (yn := {| x_id := h'; x_live := true; x_closed := x_closed y |}).
